@@ -1,11 +1,12 @@
 import PsyVerif.Model.Proto
-import PsyVerif.Model.LineLen
+import PsyVerif.Model.LineLenFixed
 open Proto
 
 /-! protocol (characters are code points):
 `(proc L (c c …) (c …) …)`  → `(ok (c …) (c …) …)` | `(err internal)` | `(err fuel)`
 `(logical (c …) (c …) …)`   → `((s c …) (c c …) (d k (c …) (c …)) …)`
 `(safe L (c …) …)`        → 0/1 (side condition `SafeFile`)
+`(procF …)`, `(safeF …)`, `(breakableF …)`: the same for the FIXED-mode model (`processF`, `SafeFileF`, `BreakableF`)
 `(breakable L (c …) …)`   → 0/1 (every line satisfies `Breakable`)
 `(type (c …))`              → line type number
 `(long L (c …) …)`          → 0/1 -/
@@ -24,6 +25,13 @@ def handle (s : Sexp) : String :=
     | .ok out => "(ok " ++ " ".intercalate (out.map showLine) ++ ")"
     | .error .internal => "(err internal)"
     | .error .fuel => "(err fuel)"
+  | .atom "procF" :: l :: ls =>
+    match C18.processF (l.nat?.getD 0) (ls.map Sexp.natList) with
+    | .ok out => "(ok " ++ " ".intercalate (out.map showLine) ++ ")"
+    | .error .internal => "(err internal)"
+    | .error .fuel => "(err fuel)"
+  | .atom "safeF" :: l :: ls => if C18.SafeFileF (l.nat?.getD 0) C18.St.init (ls.map Sexp.natList) then "1" else "0"
+  | .atom "breakableF" :: l :: ls => if (ls.map Sexp.natList).all (C18.BreakableF (l.nat?.getD 0)) then "1" else "0"
   | .atom "logical" :: ls => showList showItem (C18.logical (ls.map Sexp.natList))
   | .atom "safe" :: l :: ls => if C18.SafeFile (l.nat?.getD 0) C18.St.init (ls.map Sexp.natList) then "1" else "0"
   | .atom "breakable" :: l :: ls => if (ls.map Sexp.natList).all (C18.Breakable (l.nat?.getD 0)) then "1" else "0"
